@@ -153,7 +153,7 @@ const UNIVERSE: [(&str, &str, u32, u32, &str, u8); 5] = [
     ("G", "poke", 9, 99, "none", 9),
 ];
 const IDS: [&str; 5] = ["A", "B", "C", "D", "G"];
-const CHG: [&str; 6] = ["none", "target", "function", "args", "pred", "salt"];
+const CHG: [&str; 8] = ["none", "target", "function", "args", "pred", "salt", "swap", "swap"];
 
 #[derive(Clone)]
 struct Fields {
@@ -249,6 +249,29 @@ impl Sys {
                 .ok()?
                 .ok(),
         }
+    }
+
+    /// Two operations that differ only in which of the two 32-byte fields carries a value: (pred, salt) exchanged;
+    /// (P, 0) against (0, P); (0, S) against (S, 0). They are different operations and must get different ids.
+    fn swap_pair(&self, f: &Fields, variant: i64) -> (Fields, Fields) {
+        let zero = BytesN::from_array(&self.e, &[0u8; 32]);
+        let p = if f.pred == zero { self.id("A") } else { f.pred.clone() };
+        let (mut a, mut b) = (f.clone(), f.clone());
+        match variant % 3 {
+            0 => {
+                b.pred = f.salt.clone();
+                b.salt = f.pred.clone();
+            }
+            1 => {
+                (a.pred, a.salt) = (p.clone(), zero.clone());
+                (b.pred, b.salt) = (zero, p);
+            }
+            _ => {
+                (a.pred, a.salt) = (zero.clone(), f.salt.clone());
+                (b.pred, b.salt) = (f.salt.clone(), zero);
+            }
+        }
+        (a, b)
     }
 
     /// One single-field change; `variant` selects among a few alternatives.
@@ -429,13 +452,18 @@ impl Sys {
                 // `delay` selects the variant of the changed value
                 let name = s(op, "id");
                 let base = self.fields(name);
-                let other = self.changed(&base, s(op, "chg"), n(op, "delay"));
+                let (base, other) = if s(op, "chg") == "swap" {
+                    self.swap_pair(&base, n(op, "delay"))
+                } else {
+                    let o = self.changed(&base, s(op, "chg"), n(op, "delay"));
+                    (base, o)
+                };
                 match (self.hash(&base), self.hash(&other)) {
                     (Some(h1), Some(h2)) => {
                         // chg = none: two independently rebuilt copies hash to the id computed when
                         // the run started; otherwise: the changed twin hashes to something else
                         let id0 = self.id(name);
-                        same = if s(op, "chg") == "none" { h1 == id0 && h2 == id0 } else { h2 == id0 || h2 == h1 };
+                        same = if s(op, "chg") == "none" { h1 == id0 && h2 == id0 } else if s(op, "chg") == "swap" { h2 == h1 } else { h2 == id0 || h2 == h1 };
                         ("ok", 0)
                     }
                     _ => ("fail", -1),
